@@ -39,7 +39,11 @@ class C17(XsProp):
             # the failing token (or the construct around it) starts in column 0 of a later line
             pre = pre.rstrip(' ') + rng.choice(['\n', '\r\n', '\r', '\n\n'])
         k = rng.random()
-        if k < 0.12:
+        if k < 0.06:
+            # the first token fetched from the source after text it injected itself has ended
+            cul = rng.choice(['zzqq', '0xg'])
+            body = rng.choice(['#( "1 2" ~) {C}', '#( "1 drop" ~)\n  {C}', '#( "" ~) {C}', '1 #( "2 +" ~) drop {C}'])
+        elif k < 0.12:
             cul, body = 'zzqq', '{C}'
         elif k < 0.2:
             cul, body = rng.choice(['12zz', '0xg', '1_a']), '{C}'
@@ -53,10 +57,13 @@ class C17(XsProp):
             fail = rng.choice([('+', '"a" 1 {C}'), ('/', '1 0 {C}'), ('assert', 'false {C}'), ('nth', '[ 1 ] 5 {C}'), ('neg', '"s" {C}'),
                                ('assert-eq', '1 2 {C}'),
                                # the failing cell is one that a later word backpatches
+                               ('get', '[ ] 0 #( "1 drop" ~) {C}'), ('+', '"a" #( "1" ~) {C}'),
                                ('if', '5 {C} 1 then 2'), ('if', '"s" {C} 1 else 2 then'), ('while', '0 begin 7 {C} 1 + repeat'), ('until', 'begin 7 {C}'),
                                ('do', '"a" 0 {C} I loop')])
             cul, core = fail
             form = rng.random()
+            if '#(' in core:
+                form *= 0.8       # no meta block around a core that injects text itself (nested blocks are the D18 domain)
             if form < 0.3:
                 body = core
             elif form < 0.55:
@@ -98,7 +105,8 @@ class C17(XsProp):
             steps = ['xs limits 6000 - -'] + ['eval %s' % hexsrc(g) for g in srcs] + ['eval %s' % hexsrc(text), 'errloc', 'pretty']
             case = ' | '.join(steps)
             cs.append(case)
-            self.expect[case] = (len(srcs), expected_loc(text, a, b), text, cul)
+            # text injected with `~)` becomes a source buffer of its own: earlier evaluations that injected shift the numbering
+            self.expect[case] = (sum(1 + g.count('~)') for g in srcs), expected_loc(text, a, b), text, cul)
         # the failing word lives in an EARLIER source and is reached from a later one (directly, through a definition, or from a
         # meta block): the report must name the earlier buffer and the token inside the definition
         for i in range(n // 6):
